@@ -1301,9 +1301,12 @@ def gen_m_call(g, gs, cfg, mid, force_method=None):
         elif method == "conditional":
             g.shuffle(nodes)
             ky = g.randint(1, max(1, p - 1))
+            full = g.random() < 0.3           # one variable given all the others: the largest block to invert
+            if full:
+                ky = 1
             Y = nodes[:ky]
             rest = nodes[ky:]
-            kx = g.randint(0, len(rest))
+            kx = g.randint(0, len(rest)) if not full else len(rest)
             X = rest[:kx]
             x = [G.r2(g, -2, 2) for _ in X]
             if invalid and p >= 1:
